@@ -304,12 +304,86 @@ PROPS['C17'] = {
                     "and prefix matching; join = the documented spacing rule on the resolved words"],
 }
 
+PROPS['C10'] = {
+    'module': 'SuironVerif.Props.C10',
+    'theorems': ['Suiron.C10.rename_shape', 'Suiron.C10.rename_shapeL', 'Suiron.C10.rename_ok', 'Suiron.C10.rename_okL', 'Suiron.C10.rename_consistent',
+                 'Suiron.C10.rename_list_consistent', 'Suiron.C10.make_query_fresh'],
+    'oracles': ['C10'],
+    'suites': {
+        'quick': [{'suite': 'rename', 'args': ['--props', 'C10', '--n', '4000']}, {'suite': 'rename', 'args': ['--props', 'C10', '--exhaustive']},
+                  {'suite': 'engine', 'args': ['--props', 'C10', '--n', '800']}],
+        'thorough': [{'suite': 'rename', 'args': ['--props', 'C10', '--n', '50000']} for _ in range(6)] + [{'suite': 'rename', 'args': ['--props', 'C10', '--exhaustive']}]
+                    + [{'suite': 'engine', 'args': ['--props', 'C10', '--n', '20000']} for _ in range(3)],
+    },
+    'exhaustive_in': {'quick': True, 'thorough': True},
+    'rule': "rename suite: Rule::recreate_variables called directly on rules of the engine generator and on rules with rich heads (nested lists with and without tail "
+            "variable, empty lists, `$_`, function terms, complex terms, repeated names) at a random counter value 0-49; exhaustive part: all lists of length <= 3 over "
+            "7 element kinds (with/without tail variable) as fact heads. Compared with the model: the complete renamed rule (every id, count and flag) and the counter. "
+            "The engine runs add renamings taken in the middle of a search (ids and counter after every request). Non-trivial/distinct = distinct encoded case text.",
+    'design_ref': '5.10',
+    'assumptions': ["oracle on the implementation: with all ids erased the rule is unchanged; each name has one id and each id one name; every id is above the counter the "
+                    "renaming started from; the counter advances by the number of distinct names",
+                    "`no fresh variable is in use elsewhere in the current search` follows from ids being above the global counter, which only grows during a search; "
+                    "the engine runs check the counter after every request against the model"],
+}
+PROPS['C11'] = {
+    'module': 'SuironVerif.Props.C11',
+    'theorems': ['Suiron.C11.rename_commutes_partial', 'Suiron.C11.rename_commutesL_partial', 'Suiron.C11.counter_independent_partial',
+                 'Suiron.C11.beq_names_partial', 'Suiron.C11.beqL_names_partial'],
+    'oracles': ['C11'],
+    'suites': {
+        'quick': [{'suite': 'engine', 'args': ['--alpha', '--props', 'C11', '--n', '700']}, {'suite': 'engine', 'args': ['--alpha', '--props', 'C11', '--n', '500', '--pure']},
+                  {'suite': 'engine', 'args': ['--alpha', '--props', 'C11', '--n', '500', '--print', '6']}],
+        'thorough': [{'suite': 'engine', 'args': ['--alpha', '--props', 'C11', '--n', '10000']} for _ in range(8)] +
+                    [{'suite': 'engine', 'args': ['--alpha', '--props', 'C11', '--n', '10000', '--print', '6']} for _ in range(4)],
+    },
+    'rule': E_RULE + " Each program is run four times: as generated (rules and query share one pool of variable names), with per-rule fresh names, with one permutation "
+            "of the shared pool applied to all rules, and with long non-ASCII names.",
+    'design_ref': '5.11',
+    'assumptions': ["PARTIAL: proved are the commutation of renaming-apart with injective name maps (same ids whatever the names) and the name-blindness of term comparison; "
+                    "the lift to whole runs of the machine is stated in Props/C11.lean and decided by the oracle",
+                    "oracle on the implementation: the four runs give the same answers (variables numbered by first occurrence), in the same order, with the same output "
+                    "(names of printed unbound variables masked)"],
+}
+PROPS['C15'] = {
+    'module': 'SuironVerif.Props.C15',
+    'theorems': ['Suiron.C15.built_list_elems', 'Suiron.C15.built_list_wf', 'Suiron.C15.constructor_plain', 'Suiron.C15.constructor_tail', 'Suiron.C15.constructor_splice',
+                 'Suiron.C15.constructor_splice_empty', 'Suiron.C15.constructor_count', 'Suiron.C15.rename_keeps_cells', 'Suiron.C15.rename_keeps_empty'],
+    'oracles': ['C15', 'C10', 'C16', 'C17'],
+    'suites': {
+        'quick': [{'suite': 'lists', 'args': ['--props', 'C15', '--n', '3000']}, {'suite': 'lists', 'args': ['--props', 'C15', '--exhaustive']},
+                  {'suite': 'rename', 'args': ['--props', 'C10', '--exhaustive']},
+                  {'suite': 'builtins', 'args': ['--kind', 'append', '--props', 'C16', '--n', '2000']}, {'suite': 'builtins', 'args': ['--kind', 'c17', '--props', 'C17', '--n', '2000']}],
+        'thorough': [{'suite': 'lists', 'args': ['--props', 'C15', '--n', '100000']} for _ in range(4)] + [{'suite': 'lists', 'args': ['--props', 'C15', '--exhaustive']},
+                  {'suite': 'rename', 'args': ['--props', 'C10', '--exhaustive']}, {'suite': 'rename', 'args': ['--props', 'C10', '--n', '50000']},
+                  {'suite': 'builtins', 'args': ['--kind', 'append', '--props', 'C16', '--n', '50000']}, {'suite': 'builtins', 'args': ['--kind', 'c17', '--props', 'C17', '--n', '50000']}],
+    },
+    'exhaustive_in': {'quick': True, 'thorough': True},
+    'rule': "lists suite: make_linked_list (tail flag on/off) and make_list_of_terms called on vectors of 0-5 terms over atoms, integers, floats, variables, `$_`, the empty list, "
+            "a 2-element list, a list with tail variable and a complex term; exhaustive part: all vectors of length <= 3 over those 9 kinds x both builders x tail flag. "
+            "Compared with the model: the complete structure (every count and flag). Renamed clause lists come from the rename suite, append/include/exclude results from "
+            "the builtins suite. Non-trivial/distinct = distinct encoded case text.",
+    'design_ref': '5.15',
+    'assumptions': ["oracle on the implementation: the result is well formed (counts = remaining cells, ends in the empty node, tail variable last) and holds exactly the given "
+                    "terms, resp. — for the documented constructor — the terms, a trailing tail variable as tail, a trailing list spliced in as the rest",
+                    "parsed lists are compared with lists built node by node once the parser suite exists (C19/C20)"],
+}
+
 NOT_APPLICABLE = {
     'C24': 'Undefined behaviour (aliasing of raw-pointer writes, data races on static mut) is a property of pointers, borrows and threads, '
            'which a pure functional Lean model erases by construction; no executable Lean model can express it (DESIGN.md 5.24).',
 }
 
 LEVEL_TEXT = {
+    'C10': 'Proved in Lean by structural recursion over all terms: renaming apart leaves a term unchanged once ids are erased (atoms, numbers, list cells with counts and '
+           'tail markers, the empty list, nesting); there is one map from names to ids such that every variable carries the id of its name, distinct names get distinct '
+           'ids, every new id is above the starting counter and at most the new counter; make_query starts from 0. Tied to unifiable.rs / rule.rs / goal.rs by the rename '
+           'suite (whole renamed rules compared) and, mid-search, by the engine suite.',
+    'C11': 'PARTIAL proof: renaming apart commutes with every injective renaming of a clause (identical ids and counter), and term comparison is blind to such a renaming. '
+           'The full statement is decided on the implementation by running every generated program under three alpha-renamings and comparing answers, order and output.',
+    'C15': 'Proved in Lean for all element lists: lists built by append/include/exclude hold exactly their elements (a list-valued or empty element stays one element), are '
+           'well formed and record their length; the documented constructor yields the given terms, a trailing tail variable as tail, a trailing (possibly empty) list '
+           'spliced in as the rest; renaming keeps every cell, count and tail marker and the empty list. Tied to the code by the lists, rename and builtins suites.',
     'C12': 'Proved in Lean for all argument lists and every implementation of the float operations: with integer arguments only, add/subtract/multiply/divide '
            'are the plain left folds of + - * and truncating division whenever no intermediate leaves the i64 range and no divisor is zero; with a float among '
            'the arguments every argument is converted and the fold is done with the float operations; arguments are read through their bindings; the value is '
